@@ -57,7 +57,7 @@ type Desc struct {
 	GapsUs    []int  `json:"gaps_us"` // sleep before each segment, <= 2000
 	TimeoutMs int    `json:"timeout_socket_ms"`
 	ReadSize  int    `json:"read_size"`
-	Tail      string `json:"tail,omitempty"` // hex: plain bytes the server sends after Open has returned
+	Tail      string `json:"tail,omitempty"`   // hex: plain bytes the server sends after Open has returned
 	Family    string `json:"family,omitempty"` // "" dense (gaps <= 2 ms) | "paced" (bursts separated by pauses below the per-read window)
 }
 
@@ -828,7 +828,7 @@ func Run(d Desc) mon.Result {
 	for i := 0; i < 2; i++ {
 		r2, early2 := runOnce(d)
 		if r2.Verdict != mon.Violated || !early2 {
-			return mon.Result{Verdict: mon.Inconclusive, Detail: "negotiation window ended early once, not reproduced in a repetition (" + string(r2.Verdict) + ")"}
+			return mon.Result{Verdict: mon.Inconclusive, Detail: "negotiation window ended early once, not reproduced in a repetition (" + string(r2.Verdict) + "): " + r2.Detail}
 		}
 	}
 	r.Detail += "\n(reproduced in 3 of 3 executions)"
@@ -1014,7 +1014,7 @@ func runOnce(d Desc) (res mon.Result, earlyPattern bool) {
 		obs["paced_openings"]++
 		obs["paced_bursts"] += int64(srv.bursts)
 		// requests whose first byte was written later than TimeoutSocket/2 after the dial (by the schedule)
-		at, woff, late := 0, 0, 0
+		at, late := 0, 0
 		segEnd := 0
 		si := 0
 		st := refParse(wire).state
@@ -1027,7 +1027,6 @@ func runOnce(d Desc) (res mon.Result, earlyPattern bool) {
 			if wire[i] == bIAC && st[i] == 0 && i+1 < len(wire) && wire[i+1] >= bWILL && wire[i+1] <= bDONT && at > d.TimeoutMs*500 {
 				late++
 			}
-			_ = woff
 		}
 		obs["paced_requests_later_than_half_timeout"] += int64(late)
 		span := 0
@@ -1058,7 +1057,7 @@ func runOnce(d Desc) (res mon.Result, earlyPattern bool) {
 				return inconclusive("negotiation window ended early: load canary overshot (after %d of %d bytes)", n, len(wire))
 			}
 			if psi1, ok := cpuPressure(); ok && psiOK {
-				if el := time.Since(t0); psi1-psi0 > el/10 {
+				if el := time.Since(t0); psi1-psi0 > el/2 { // saturated machine (observed: ~0.9 at load average 100, 0.1-0.3 at load average 7 on 16 cores)
 					return inconclusive("negotiation window ended early: tasks were waiting for a CPU (PSI some %s of %s; after %d of %d bytes)", psi1-psi0, el, n, len(wire))
 				}
 			}
